@@ -20,8 +20,8 @@ import (
 // alphabets
 
 // "a" and "a/" differ only by a trailing slash; one key holds a backslash; three hold per cent signs ("a%%" is what a
-// formatting function makes "a%" of, "v%d" asks for an argument)
-var Keys = []string{"a", "a/", "b", "ab", "a/b", "k1", `c\d`, "a%", "a%%", "v%d"}
+// formatting function makes "a%" of, "v%d" asks for an argument); the last one is the empty key, which both backends accept
+var Keys = []string{"a", "a/", "b", "ab", "a/b", "k1", `c\d`, "a%", "a%%", "v%d", ""}
 var Vals = [][]byte{nil, {}, []byte("x"), []byte("yy")}
 
 // Patterns: the subset on which gobwas/glob (no separators) and Redis MATCH agree.
@@ -187,6 +187,13 @@ func (d *Driver) expiry(m *Model, exp int) *time.Time {
 		d.neverN++
 	}
 	return &t
+}
+
+// scribbled is what the harness overwrites its own slices and returned records with once a call has returned (a fresh value
+// slice and expiry: the bytes and the time the storage may still reference are not touched).
+func scribbled() kvs.Record {
+	past := time.Unix(1, 0)
+	return kvs.Record{Key: "scribbled", Value: []byte("scribbled"), Version: "scribbled", ExpiresAt: &past}
 }
 
 // isPast: the record is written already expired.
@@ -492,6 +499,12 @@ func runSeq(c SCase, drivers []*Driver, info *Info) *vstat.Violation {
 						return v
 					}
 				}
+				// the returned records belong to the caller: it may overwrite them
+				for j := range got {
+					if got[j] != nil {
+						*got[j] = scribbled()
+					}
+				}
 			}
 		case "put":
 			key := Keys[op.Key]
@@ -555,6 +568,10 @@ func runSeq(c SCase, drivers []*Driver, info *Info) *vstat.Violation {
 				}
 				if err := d.St.PutMany(ctx, recs); err != nil {
 					return vstat.V(d.Name+":putmany-error", "%s: PutMany failed: %s", where, errName(err))
+				}
+				// the slice belongs to the caller again: it may fill it with its next batch
+				for j := range recs {
+					recs[j] = scribbled()
 				}
 				ks := make([]string, 0, len(final))
 				for k := range final {
@@ -706,7 +723,12 @@ func runSeq(c SCase, drivers []*Driver, info *Info) *vstat.Violation {
 					it.Close()
 					sort.Strings(got)
 					if strings.Join(got, "\x00") != strings.Join(wants[pi], "\x00") {
-						return vstat.V(d.Name+":list-keys", "%s: ListKeys(%q) returned %q want %q", where, pats[pi], got, wants[pi])
+						sig := d.Name + ":list-keys"
+						if len(got) == len(wants[pi])+1 && got[0] == "" && strings.Join(got[1:], "\x00") == strings.Join(wants[pi], "\x00") {
+							// the only difference is the empty key, listed for a pattern that does not match the empty string
+							sig = d.Name + ":list-keys-empty-key"
+						}
+						return vstat.V(sig, "%s: ListKeys(%q) returned %q want %q", where, pats[pi], got, wants[pi])
 					}
 				}
 			}
